@@ -1096,3 +1096,19 @@ M("c18-label-without-guards", "C18", ["C18.edge"],
   E(DIA, "            label=f\"{transition.event}{cond}\",", "            label=f\"{transition.event}\","))
 M("c18-node-named-by-name", "C18", ["C18.node"],
   E(DIA, "            state.id,\n            label=f\"{state.name}{actions}\",", "            state.name,\n            label=f\"{state.name}{actions}\","))
+
+# ----------------------------------------------------------------------------------------- support functions
+M("c02-executor-key-without-list-id", ["C02"], ["C02.keys"],
+  E(CB, '        return f"{self.name}@{id(specs)}"', '        return f"{self.name}"'),
+  note="every transition shares one executor per group: callbacks of other transitions run too")
+M("c02-spec-eq-ignores-group", ["C02"], ["C02.once"],
+  E(CB, "        return self.func == other.func and self.group == other.group", "        return self.func == other.func"),
+  note="a name used for both `before` and `on` of one transition is registered once only")
+M("c02-instancestate-exit-returns-enter", ["C02"], ["C02.keys"],
+  E(ST, """    def exit(self):
+        return self._state().exit""", """    def exit(self):
+        return self._state().enter"""))
+M("c12-resolve-skips-all-conventions", ["C12"], ["C12.allproviders"],
+  E(DISP, "                spec.is_convention and spec.func not in found_convention_specs", "                spec.is_convention or spec.func not in found_convention_specs"))
+M("c12-found-conventions-from-first-listener", ["C12"], ["C12.allproviders"],
+  E(DISP, "        found_convention_specs = specs.conventional_specs & self.all_attrs", "        found_convention_specs = specs.conventional_specs & self.items[0].all_attrs"))
